@@ -168,3 +168,108 @@ func derive2Programs() []Program {
 	}
 	return out
 }
+
+// third family: mutually recursive types (Dept -> *Emp -> *Dept, Emp -> *Emp) with plain @fp.Derive: the instance
+// constructors refer to each other and must not call each other eagerly.
+const derive3Types = `package d3
+
+import (
+	"github.com/csgura/fp"
+	"github.com/csgura/fp/clone"
+	"github.com/csgura/fp/eq"
+	"github.com/csgura/fp/hash"
+)
+
+//go:generate gombok
+
+type Dept struct {
+	Name string
+	Head *Emp
+}
+
+type Emp struct {
+	ID   int
+	Dept *Dept
+	Peer *Emp
+}
+
+// @fp.Derive
+var _ eq.Derives[fp.Eq[Dept]]
+
+// @fp.Derive
+var _ eq.Derives[fp.Eq[Emp]]
+
+// @fp.Derive
+var _ hash.Derives[fp.Hashable[Dept]]
+
+// @fp.Derive
+var _ hash.Derives[fp.Hashable[Emp]]
+
+// @fp.Derive
+var _ clone.Derives[fp.Clone[Dept]]
+
+// @fp.Derive
+var _ clone.Derives[fp.Clone[Emp]]
+`
+
+const derive3Harness = `package d3
+
+import (
+	zz "scratchmod/zzverif"
+)
+
+// Dept -> Emp -> (Dept without head | nil), Emp -> Peer (one more Emp | nil)
+func mkDept(t string) Dept {
+	d := Dept{Name: zz.Str(t+".name", 1)}
+	if zz.Bool(t + ".head") {
+		e := Emp{ID: zz.Int(t + ".head.id")}
+		if zz.Bool(t + ".head.dept") {
+			e.Dept = &Dept{Name: zz.Str(t+".head.dept.name", 1)}
+		}
+		if zz.Bool(t + ".head.peer") {
+			e.Peer = &Emp{ID: zz.Int(t + ".head.peer.id")}
+		}
+		d.Head = &e
+	}
+	return d
+}
+
+func eqEmpRef(a, b *Emp) bool {
+	if a == nil || b == nil {
+		return a == nil && b == nil
+	}
+	return a.ID == b.ID && eqDeptRef(a.Dept, b.Dept) && eqEmpRef(a.Peer, b.Peer)
+}
+
+func eqDeptRef(a, b *Dept) bool {
+	if a == nil || b == nil {
+		return a == nil && b == nil
+	}
+	return a.Name == b.Name && eqEmpRef(a.Head, b.Head)
+}
+
+func VH_c08_mutual_recursion_eq_hash() {
+	a, b := mkDept("a"), mkDept("b")
+	zz.Assert(EqDept().Eqv(a, b) == eqDeptRef(&a, &b), "derived Eq[Dept] over mutually recursive types is structural")
+	h := HashableDept()
+	zz.Assert(h.Eqv(a, b) == eqDeptRef(&a, &b), "derived Hashable[Dept].Eqv over mutually recursive types")
+	if h.Eqv(a, b) {
+		zz.Assert(h.Hash(a) == h.Hash(b), "derived Hashable[Dept]: equal values hash equally")
+	}
+	if a.Head != nil && b.Head != nil {
+		zz.Assert(EqEmp().Eqv(*a.Head, *b.Head) == eqEmpRef(a.Head, b.Head), "derived Eq[Emp]")
+	}
+}
+
+func VH_c08_mutual_recursion_clone() {
+	a := mkDept("a")
+	c := CloneDept().Clone(a)
+	zz.Assert(zz.DeepEq(a, c) && zz.Disjoint(a, c), "derived Clone[Dept] over mutually recursive types: equal copy sharing no mutable storage")
+}
+`
+
+func derive3Programs() []Program {
+	return []Program{{Pkg: "d3", Files: map[string][]byte{"types.go": []byte(derive3Types)},
+		Harness: map[string][]byte{"zz_verif_harness.go": []byte(derive3Harness)},
+		Desc:    "derive over mutually recursive types"}}
+}
